@@ -31,7 +31,7 @@ def N3():
     return [
         plate("P", 1, 1, 0, 400, 100),  # single-well plate: named after the labware
         plate("Q", 1, 3, 0, 300, [[50, 0, 25]]),  # single-row plate: default names unspecified
-        trough("T", 2, 1, 0, 1000, 400),  # single-column trough: named after the labware
+        dict(trough("T", 2, 1, 0, 1000, 400), generic=True),  # single-column trough (generic constructor): named after the labware
         plate("U", 2, 2, 0, 300, [[10, 0], [0, 0]], {"A01": "T"}),  # a name shared with the trough's default
     ]
 
